@@ -858,3 +858,30 @@ MUTANTS += [
  dict(id="C17-stopped-keeps-record", props=["C17"], expect={"C17": r"record#stopped_forgets"},
       edits=[(WCN, "            if let Some(AnnounceEvent::Stopped) = request.event {\n                announced_info_hashes.remove(&request.info_hash);\n            }", "            if let Some(AnnounceEvent::Stopped) = request.event {\n                announced_info_hashes.shrink_to_fit();\n            }")]),
 ]
+
+MUTANTS += [
+ dict(id="C12-udp-action-indexed", props=["C12"], expect={"C12": r"site#aquatic_udp_protocol::request::Request::parse_bytes#call|guard#udp_protocol#no_unchecked_index"},
+      edits=[(UP+"request.rs", """        let action = bytes
+            .get(8..12)
+            .map(|bytes| I32::from_bytes(bytes.try_into().unwrap()))
+            .ok_or_else(|| RequestParseError::unsendable_text("Couldn't parse action"))?;
+""", """        let action = I32::from_bytes(bytes[8..12].try_into().unwrap());
+""")]),
+ dict(id="C12-udp-count-unwrap", props=["C12"], expect={"C12": r"site#aquatic_udp::swarm::PeerMap::announce#call:Result::unwrap"},
+      edits=[(SWR, "                        leechers: NumberOfPeers::new(leechers.try_into().unwrap_or(i32::MAX)),\n                        seeders: NumberOfPeers::new(seeders.try_into().unwrap_or(i32::MAX)),\n                    },\n                    peers: peer_map.extract_response_peers(max_num_peers_to_take),",
+              "                        leechers: NumberOfPeers::new(leechers.try_into().unwrap()),\n                        seeders: NumberOfPeers::new(seeders.try_into().unwrap_or(i32::MAX)),\n                    },\n                    peers: peer_map.extract_response_peers(max_num_peers_to_take),")]),
+ dict(id="C12-udp-numwant-clamp-removed", props=["C12", "C02"], expect={"C12": r"guard#udp#numwant_unwrap", "C02": r"clamp#udp"},
+      edits=[(SWR, "        let max_num_peers_to_take: usize = if request.peers_wanted.0.get() <= 0 {\n            config.protocol.max_response_peers\n        } else {", "        let max_num_peers_to_take: usize = if request.peers_wanted.0.get() == 0 {\n            config.protocol.max_response_peers\n        } else {")]),
+ dict(id="C12-http-with-capacity-numwant", props=["C12"], expect={"C12": r"alloc#sizes"},
+      edits=[(HST, "            let mut peers = Vec::with_capacity(max_num_peers_to_take);", "            let mut peers = Vec::with_capacity(end_half_two);")]),
+ dict(id="C12-ws-selection-unguarded", props=["C12", "C02"], expect={"C12": r"guard#ws#selection", "C02": r"select#ws"},
+      edits=[(WST, "    if peer_map.len() <= max_num_peers_to_take + 1 {", "    if peer_map.len() <= max_num_peers_to_take {")]),
+ dict(id="C12-http-new-expect-in-parser", props=["C12"], expect={"C12": r"site#aquatic_http_protocol::request::AnnounceRequest::parse_query_string"},
+      edits=[(HP+"request.rs", "                    opt_port = Some(value.parse::<u16>().with_context(|| \"parse port\")?);", "                    opt_port = Some(value.parse::<u16>().expect(\"parse port\"));")]),
+ dict(id="C12-ws-slab-index", props=["C12"], expect={"C12": r"site#aquatic_ws::workers::socket::connection::ConnectionWriter::run_out_message_loop"},
+      edits=[(WCN, """                    let pending_response = pending_responses
+                        .get_mut(pending_scrape_id.0 as usize)
+                        .ok_or(anyhow::anyhow!("pending scrape not found in slab"))?;
+""", """                    let pending_response = &mut pending_responses[pending_scrape_id.0 as usize];
+""")]),
+]
